@@ -129,7 +129,8 @@ def run_property(pid, tier, seed):
         else:
             violations.append((o, r))
     # replay + report violations
-    rdir = os.path.join(VERIF, "replays", pid)
+    from . import SCRATCH_RUN as _SR
+    rdir = os.path.join(VERIF, "replays", pid) if not _SR else os.path.join(os.environ.get("TPV_EVIDENCE_DIR", "/tmp/tpv_scratch_evidence"), "replays", pid)
     os.makedirs(rdir, exist_ok=True)
     def _replay_one(o_r):
         o, r = o_r
@@ -193,8 +194,10 @@ def run_property(pid, tier, seed):
     )
     ev = dict(property_id=pid, tier=tier, seed=seed, level=b.level, coverage=jsonable(cov),
               assumptions=COMMON_ASSUMPTIONS + b.assumptions, wall_s=round(wall, 2), violations=len(violations))
-    os.makedirs(os.path.join(VERIF, "evidence"), exist_ok=True)
-    json.dump(ev, open(os.path.join(VERIF, "evidence", f"{pid}.json"), "w"), indent=1)
+    from . import SCRATCH_RUN
+    evdir = os.path.join(VERIF, "evidence") if not SCRATCH_RUN else os.environ.get("TPV_EVIDENCE_DIR", "/tmp/tpv_scratch_evidence")
+    os.makedirs(evdir, exist_ok=True)
+    json.dump(ev, open(os.path.join(evdir, f"{pid}.json"), "w"), indent=1)
     if os.environ.get("TPV_VERBOSE"):
         for o, r in zip(obs, results):
             print(f"  {r['verdict']:10s} {r['backend']:10s} {r.get('seconds', 0):6.2f}s  {o.oid}   [{o.clause[:70]}]")
@@ -248,7 +251,8 @@ def cover_check(obs, results):
     todo = {g: list(ix) for g, ix in groups.items()}
     covered = set()
     ctx = mp.get_context("fork")
-    with ctx.Pool(int(os.environ.get("TPV_WORKERS", "16"))) as pool:
+    from .oblig import _die_with_parent
+    with ctx.Pool(int(os.environ.get("TPV_WORKERS", "16")), initializer=_die_with_parent) as pool:
         rounds = 0
         while todo and rounds < 400:
             rounds += 1
